@@ -25,11 +25,15 @@
 (*                  "be_cpu"     best-effort strategy, cpu satisfaction    *)
 (*            feature, thr   strategy name (= eviction policy name) and    *)
 (*                  configured priority threshold (kinds other than list)  *)
-(*   C.c      target type -> pod -> resource -> amount the removal of the  *)
-(*            pod releases in terms of that target (absent = 0)            *)
-(*   pod attributes (strategy kinds): qos, prio, enabled, hasPolicy,       *)
-(*            policy (sequence of allowed policy names), ep (eviction      *)
-(*            priority), lp (label priority), used, req                    *)
+(*            c     pod -> resource -> amount the removal of the pod       *)
+(*                  releases in terms of this task's target (absent = 0)   *)
+(*   pod attributes (strategy kinds), as set on the pod object:            *)
+(*            qos, prio, evictLabel (value of the eviction-enabled label,  *)
+(*            "" = absent), hasPolicy/policy (eviction-policy annotation:  *)
+(*            sequence of allowed policy names), hasEp/ep (eviction-       *)
+(*            priority annotation), hasLp/lp (priority label), used (pod   *)
+(*            usage metric, 0 if none), req (request in the resource of    *)
+(*            the pod's priority class)                                    *)
 (*                                                                         *)
 (* Two layers:                                                             *)
 (*  property level  PropSeen / PropEvict / PropRet : what every call on    *)
@@ -78,9 +82,11 @@ TT(C, t)     == C.tasks[t].tt
 Need(C, t)   == C.tasks[t].need
 List(C, t)   == C.tasks[t].list
 Kind(C, t)   == C.tasks[t].kind
-Contrib(C, T, p, r) == IF T \in DOMAIN C.c
-                       THEN IF p \in DOMAIN C.c[T] THEN Val(C.c[T][p], r) ELSE 0
-                       ELSE 0
+\* what the removal of pod p releases in terms of target type T: every task with that target carries its own
+\* function pod -> resource -> amount (absent = 0); tasks with the same target describe the same content, which
+\* counts once (the largest figure), not once per task
+TaskContrib(C, u, p, r) == IF p \in DOMAIN C.tasks[u].c THEN Val(C.tasks[u].c[p], r) ELSE 0
+Contrib(C, T, p, r) == Max({0} \cup {TaskContrib(C, u, p, r) : u \in {v \in TaskIds(C) : TT(C, v) = T}})
 Needed(C, t) == {r \in DOMAIN Need(C, t) : Need(C, t)[r] > 0}
 
 \* resources released by a set of victims, in terms of target type T
@@ -92,6 +98,11 @@ Covered(C, t, V) == Short(C, t, V) = {}
 Useful(C, t, p, V) == \E r \in Short(C, t, V) : Contrib(C, TT(C, t), p, r) > 0
 
 (***************************** published order *****************************)
+\* effective values: no eviction-priority annotation = 0; no priority label = the pod's priority
+EP(a) == IF a.hasEp THEN a.ep ELSE 0
+LP(a) == IF a.hasLp THEN a.lp ELSE a.prio
+Enabled(a) == a.evictLabel = "true"
+
 LexLess(a, b) == \E i \in 1..Len(a) : a[i] < b[i] /\ \A j \in 1..(i - 1) : a[j] = b[j]
 
 \* usage/request ratio of the best-effort cpu strategy (0 when there is no request), compared exactly
@@ -108,8 +119,8 @@ Before(C, t, x, y) ==
       a == C.pods[x]
       b == C.pods[y]
   IN  CASE k = "list"      -> Pos(List(C, t), x) < Pos(List(C, t), y)
-        [] k = "prio_used" -> LexLess(<<a.ep, a.prio, a.lp, 0 - a.used>>, <<b.ep, b.prio, b.lp, 0 - b.used>>)
-        [] k = "prio_req"  -> LexLess(<<a.ep, a.prio, a.lp, 0 - a.req>>, <<b.ep, b.prio, b.lp, 0 - b.req>>)
+        [] k = "prio_used" -> LexLess(<<EP(a), a.prio, LP(a), 0 - a.used>>, <<EP(b), b.prio, LP(b), 0 - b.used>>)
+        [] k = "prio_req"  -> LexLess(<<EP(a), a.prio, LP(a), 0 - a.req>>, <<EP(b), b.prio, LP(b), 0 - b.req>>)
         [] k = "be_mem"    -> LexLess(<<a.prio, 0 - a.used>>, <<b.prio, 0 - b.used>>)
         [] k = "be_cpu"    -> a.prio < b.prio \/ (a.prio = b.prio /\ RatioGreater(a, b))
 
@@ -124,7 +135,7 @@ Eligible(C, t, p) ==
              [] k \in {"be_mem", "be_cpu"} ->
                     a.qos = "BE" /\ PolicyAllowed(a, C.tasks[t].feature)
              [] k \in {"prio_used", "prio_req"} ->
-                    a.prio <= C.tasks[t].thr /\ a.enabled /\ PolicyAllowed(a, C.tasks[t].feature)
+                    a.prio <= C.tasks[t].thr /\ Enabled(a) /\ PolicyAllowed(a, C.tasks[t].feature)
 
 (***************************** property level ******************************)
 El(C, t, p)        == Eligible(C, t, p)
@@ -170,7 +181,7 @@ StStrict(C, V, t) == ~Covered(C, t, V \cup AllAlready(C))
 (****************************** design level *******************************)
 \* transcription of KillAndEvictPods
 TargetTypes(C) == {TT(C, t) : t \in {u \in TaskIds(C) : Needed(C, u) # {}}}     \* "releaseTypes"
-ResOf(C, T)    == UNION {DOMAIN C.c[T][p] : p \in DOMAIN C.c[T]}
+ResOf(C, T)    == UNION {UNION {DOMAIN C.tasks[u].c[p] : p \in DOMAIN C.tasks[u].c} : u \in {v \in TaskIds(C) : TT(C, v) = T}}
 \* len(subReleaseListNoNegative(task.ToReleaseResource, releasedAll[target])) == 0
 CodeShort(C, t, R)   == {r \in DOMAIN Need(C, t) :
                             Need(C, t)[r] > (IF TT(C, t) \in DOMAIN R THEN Val(R[TT(C, t)], r) ELSE 0)}
@@ -184,7 +195,7 @@ InitCase(C) ==
   /\ cs = C
   /\ victims = {} /\ tried = {}
   /\ ti = 1 /\ pi = 0
-  /\ rel = [T \in TargetTypes(cs) |-> [r \in (IF T \in DOMAIN cs.c THEN ResOf(cs, T) ELSE {}) |-> 0]]
+  /\ rel = [T \in TargetTypes(cs) |-> [r \in ResOf(cs, T) |-> 0]]
   /\ viol = FALSE /\ violS = FALSE
 
 Running == ti <= Len(cs.tasks)
